@@ -258,11 +258,11 @@ def run_call(klass, tier):
                 for vname, arr1, cplxf in variants:
                     if cplxf and method in ('complex', 'multicomplex'):
                         continue
-                    for order in ([2, 4] if klass == 'Hessdiag' and vname == 'plain' and method in ('central', 'forward') else [2]):
+                    for order, full in itertools.product(([2, 4] if klass == 'Hessdiag' and vname == 'plain' and method in ('central', 'forward') else [2]), (True, False)):
                         CTX.reset()
                         del PINV_LOG[:]
                         fd.FD_RULES = SymKeyDict()
-                        tag = '%s,d=%d,order=%d,%s:' % (method, d, order, vname)
+                        tag = '%s,d=%d,order=%d,%s%s:' % (method, d, order, vname, '' if full else ',full_output=False')
                         c0, g, Q, f0 = quadratic(d, mc, cplx_coef=cplxf)
 
                         def f(z):
@@ -272,7 +272,7 @@ def run_call(klass, tier):
                             return v
                         x = SymArr([real('x%d' % j) for j in range(d)])
                         gen = StubGen(d, 8 if order == 2 else 10, r, q)
-                        kw = dict(step=gen, method=method, full_output=True)
+                        kw = dict(step=gen, method=method, full_output=full)
                         if klass == 'Hessdiag':
                             kw['order'] = order
                         with warnings.catch_warnings():
@@ -292,7 +292,7 @@ def run_call(klass, tier):
                         if not ok:
                             continue
                         info['configs'] += 1
-                        out, inf = paths[0].value
+                        out, inf = paths[0].value if full else (paths[0].value, None)
                         H = paths[0].hyps + S2
                         for (M, P) in PINV_LOG:
                             T = M.shape[0]
@@ -311,8 +311,9 @@ def run_call(klass, tier):
                             for rr in sorted({0, tab.shape[0] - 1}):
                                 got = C.lift(lift(tab[(rr,) + idx])); w = C.lift(lift(want))
                                 solve.prove(tag + 'table[%d]%s==Q-entry' % (rr, idx), z3.And(got.re.t == w.re.t, got.im.t == w.im.t), H)
-                        solve.fact(tag + 'error_estimate-and-final_step-one-entry-per-result-entry',
-                                   np.size(inf.error_estimate) == np.size(out) and np.size(inf.final_step) == np.size(out))
+                        if full:
+                            solve.fact(tag + 'error_estimate-and-final_step-one-entry-per-result-entry',
+                                       np.size(inf.error_estimate) == np.size(out) and np.size(inf.final_step) == np.size(out))
     return info
 
 
@@ -333,7 +334,7 @@ def run_group(args):
 def replay_case(ob):
     import re
     nm = ob['name']
-    mm = re.search(r'call\[(\w+)\]/(\w+),d=(\d+),order=(\d+),([\w-]+):', nm)
+    mm = re.search(r'call\[(\w+)\]/(\w+),d=(\d+),order=(\d+),([\w-]+)', nm)
     if mm:
         return dict(kind='C04.call', klass=mm.group(1), method=mm.group(2), d=int(mm.group(3)), order=int(mm.group(4)), variant=mm.group(5))
     mm = re.search(r'hessdiag-rule\[(\w+)\]/n=2,order=(\d+)', nm)
